@@ -290,7 +290,11 @@ def check_autoretry(res, case):
     base, run = c03.autoretry_run(case)
     expected = c03.final_attempt_program(base, case["attempts"])
     ref = refmodel.simulate(runcheck.resolve_faults(expected))
-    runcheck.check_verdict(res, "C01.autoretry.verdict", ref, run)
+    if base.get("hook_faults_attempts") and run.escaped is None and run.failed and not ref.failed:
+        # a step hook raised in an attempt that was retried away: "a hook raises" -- the run may report failure
+        res.label("autoretry:hook-raised-in-an-earlier-attempt")
+    else:
+        runcheck.check_verdict(res, "C01.autoretry.verdict", ref, run)
     res.label("autoretry", "autoretry:verdict:%s" % ("failed" if ref.failed else "passed"))
     if case.get("whole_outlines"):
         res.label("autoretry:outline-as-a-whole")
